@@ -195,12 +195,11 @@ impl<'a> Iterator for JitValuePathIter<'a> {
                         JitState::Index { value } => match c {
                             '0'..='9' => {
                                 let new_digit = c as isize - '0' as isize;
-                                (
-                                    None,
-                                    JitState::Index {
-                                        value: value * 10 + new_digit,
-                                    },
-                                )
+                                // an index that does not fit `isize` is not a valid path
+                                match value.checked_mul(10).and_then(|v| v.checked_add(new_digit)) {
+                                    Some(value) => (None, JitState::Index { value }),
+                                    None => (Some(Some(BorrowedSegment::Invalid)), JitState::End),
+                                }
                             }
                             ']' => (
                                 Some(Some(BorrowedSegment::Index(value))),
@@ -211,12 +210,10 @@ impl<'a> Iterator for JitValuePathIter<'a> {
                         JitState::NegativeIndex { value } => match c {
                             '0'..='9' => {
                                 let new_digit = c as isize - '0' as isize;
-                                (
-                                    None,
-                                    JitState::NegativeIndex {
-                                        value: value * 10 - new_digit,
-                                    },
-                                )
+                                match value.checked_mul(10).and_then(|v| v.checked_sub(new_digit)) {
+                                    Some(value) => (None, JitState::NegativeIndex { value }),
+                                    None => (Some(Some(BorrowedSegment::Invalid)), JitState::End),
+                                }
                             }
                             ']' => (
                                 Some(Some(BorrowedSegment::Index(value))),
